@@ -13,7 +13,7 @@ type client struct{ id string }
 var keysV = []string{"a", "b", "c"}
 var valsV = []string{"1", "2", "xy", "alice", "bob"}
 
-func genScript(r *gen.Rand, api string, c cfgIn, ids []string, own string) []string {
+func genScript(r *gen.Rand, api string, c cfgIn, ids []string, own string, calm bool) []string {
 	var sc []string
 	pickID := func() string {
 		if own != "" && r.Chance(1, 2) {
@@ -23,12 +23,30 @@ func genScript(r *gen.Rand, api string, c cfgIn, ids []string, own string) []str
 	}
 	alive := true // a session variable is held and usable
 	if api == "s" {
-		switch r.Intn(12) {
+		first := r.Intn(12)
+		if calm && own != "" && r.Chance(1, 3) {
+			first = 0
+			sc = append(sc, "B"+gen.Hex(own))
+		}
+		switch first {
 		case 0:
-			sc = append(sc, "B"+pickID())
+			if len(sc) == 0 {
+				sc = append(sc, "B"+pickID())
+			}
 		case 1:
+			sc = append(sc, "B"+pickID())
+		case 2:
 			alive = false
 		default:
+			// store.Get need not be the handler's first call
+			switch r.Intn(10) {
+			case 0:
+				sc = append(sc, "Z"+pickID())
+			case 1:
+				sc = append(sc, "B"+pickID(), "I")
+			case 2:
+				sc = append(sc, "I")
+			}
 			sc = append(sc, "G")
 		}
 	}
@@ -50,7 +68,11 @@ func genScript(r *gen.Rand, api string, c cfgIn, ids []string, own string) []str
 			}
 			continue
 		}
-		switch r.Intn(20) {
+		what := r.Intn(20)
+		if calm && what >= 12 && what <= 14 && r.Chance(3, 4) {
+			what = 0 // keep the session going most of the time
+		}
+		switch what {
 		case 0, 1, 2:
 			sc = append(sc, "I")
 		case 3, 4, 5:
@@ -97,7 +119,7 @@ func genScript(r *gen.Rand, api string, c cfgIn, ids []string, own string) []str
 		}
 	}
 	if api == "s" && alive {
-		if !destroyed && r.Chance(5, 6) {
+		if !destroyed && (calm || r.Chance(5, 6)) {
 			sc = append(sc, "S")
 		}
 		if r.Chance(5, 6) {
@@ -112,33 +134,64 @@ func genScript(r *gen.Rand, api string, c cfgIn, ids []string, own string) []str
 func genCase(r *gen.Rand, wr *gen.Writer) (cfgIn, []op, string) {
 	c := cfgIn{source: gen.Pick(r, []string{"cookie", "cookie", "header", "query"}),
 		storage: gen.Pick(r, []string{"inj", "inj", "inj", "mem"}), idle: gen.Pick(r, []int{2, 5, 10, 60})}
+	if r.Chance(1, 32) {
+		c.source, c.idle = "default", defaultIdle // session.Config without KeyLookup / IdleTimeout
+	}
 	c.abs = gen.Pick(r, []int{0, 0, c.idle, 2 * c.idle, 3*c.idle + 1})
 	wr.Count("source-" + c.source)
 	wr.Count("storage-" + c.storage)
 	if c.abs > 0 {
 		wr.Count("abs")
 	}
+	// keep-alive stream: few clients that come back just before the idle timeout, so that sessions
+	// outlive their absolute deadline (and custom idle timeouts) while still live in the storage
+	keepAlive := c.abs > 0 && r.Chance(1, 2)
+	if keepAlive {
+		wr.Count("keep-alive")
+	}
 	w, panicked := newWorld(c)
 	if panicked {
 		return c, []op{{kind: "a", secs: 1}}, "panic"
 	}
 	ncl := 1 + r.Intn(3)
+	if keepAlive {
+		ncl = 1
+		if r.Chance(1, 4) {
+			ncl = 2
+		}
+	}
+	elapsed := 0
 	cls := make([]client, ncl)
-	seen := []string{"forged", "id999", "ID1"}
+	seen := []string{"forged", "id999", "ID1", "123e4567-e89b-42d3-a456-426614174000",
+		"0123456789abcdef0123456789abcdef0123456789abcdef0123456789abcdef", "id1_", "-"}
 	n := 3 + r.Intn(10)
+	if keepAlive {
+		n = 8 + r.Intn(10)
+	}
 	var ops []op
 	var obs []string
 	for i := 0; i < n; i++ {
-		if r.Chance(1, 5) {
+		advance := r.Chance(1, 5)
+		if keepAlive {
+			advance = i%2 == 1 && r.Chance(5, 6)
+		}
+		if advance {
 			choices := []int{1, 1, 2, c.idle - 1, c.idle, c.idle + 1}
 			if c.abs > 0 {
 				choices = append(choices, c.abs-c.idle, c.abs, c.abs+1)
+			}
+			if keepAlive {
+				choices = []int{c.idle - 1, c.idle - 1, c.idle - 1, c.idle / 2, 1, c.idle}
+				if left := c.abs - elapsed; left >= 0 && left < c.idle {
+					choices = append(choices, left, left, left+1, left+1) // land on / just past the absolute deadline
+				}
 			}
 			o := op{kind: "a", secs: gen.Pick(r, choices)}
 			if o.secs < 0 {
 				o.secs = 0
 			}
 			time.Sleep(time.Duration(o.secs) * time.Second)
+			elapsed += o.secs
 			ops = append(ops, o)
 			obs = append(obs, "-")
 			continue
@@ -149,7 +202,11 @@ func genCase(r *gen.Rand, wr *gen.Writer) (cfgIn, []op, string) {
 			o.api = "s"
 		}
 		id := cl.id
-		switch r.Intn(14) {
+		pickOther := r.Intn(14)
+		if keepAlive && r.Chance(2, 3) {
+			pickOther = 13 // mostly the client's own id
+		}
+		switch pickOther {
 		case 0:
 			id = ""
 		case 1:
@@ -160,7 +217,7 @@ func genCase(r *gen.Rand, wr *gen.Writer) (cfgIn, []op, string) {
 			id = "id" + strconv.Itoa(w.nid+1+r.Intn(2)) // an id the server has not issued yet
 		}
 		switch c.source {
-		case "cookie":
+		case "cookie", "default":
 			o.ck = id
 			if r.Chance(1, 12) {
 				o.hd = gen.Pick(r, seen)
@@ -184,7 +241,7 @@ func genCase(r *gen.Rand, wr *gen.Writer) (cfgIn, []op, string) {
 				o.ck = gen.Pick(r, seen)
 			}
 		}
-		o.script = genScript(r, o.api, c, seen, cl.id)
+		o.script = genScript(r, o.api, c, seen, cl.id, keepAlive)
 		res := w.do(o)
 		ops = append(ops, o)
 		obs = append(obs, res)
@@ -212,6 +269,161 @@ func genCase(r *gen.Rand, wr *gen.Writer) (cfgIn, []op, string) {
 			}
 		}
 	}
+	w.close()
+	return c, ops, strings.Join(obs, ";")
+}
+
+// pickPresented chooses what a request of client cl presents (mostly its current id).
+func pickPresented(r *gen.Rand, c cfgIn, o *op, cls []client, cl *client, seen []string, nid int) {
+	id := cl.id
+	switch r.Intn(14) {
+	case 0:
+		id = ""
+	case 1:
+		id = cls[r.Intn(len(cls))].id
+	case 2:
+		id = gen.Pick(r, seen)
+	case 3:
+		id = "id" + strconv.Itoa(nid+1+r.Intn(2))
+	}
+	switch c.source {
+	case "cookie", "default":
+		o.ck = id
+	case "header":
+		o.hd = id
+		if r.Chance(1, 8) {
+			o.ck = gen.Pick(r, seen)
+		}
+	case "query":
+		switch r.Intn(3) {
+		case 0:
+			o.qr = id
+		case 1:
+			o.ck = id
+		default:
+			o.qr, o.ck = id, id
+		}
+	}
+}
+
+type genFlight struct {
+	rid, cl, todo int
+}
+
+// genSchedule generates a schedule of overlapping requests: up to three requests in flight, their
+// handler actions interleaved at random, two requests of one client (same id) overlapping included.
+func genSchedule(r *gen.Rand, wr *gen.Writer) (cfgIn, []op, string) {
+	c := cfgIn{source: gen.Pick(r, []string{"cookie", "cookie", "header", "query"}),
+		storage: gen.Pick(r, []string{"inj", "inj", "mem"}), idle: gen.Pick(r, []int{2, 5, 10})}
+	c.abs = gen.Pick(r, []int{0, 0, c.idle, 2 * c.idle})
+	wr.Count("schedule")
+	wr.Count("source-" + c.source)
+	wr.Count("storage-" + c.storage)
+	w, panicked := newWorld(c)
+	if panicked {
+		return c, []op{{kind: "a", secs: 1}}, "panic"
+	}
+	ncl := 1 + r.Intn(3)
+	cls := make([]client, ncl)
+	seen := []string{"forged", "id999", "ID1"}
+	var ops []op
+	var obs []string
+	var fl []genFlight
+	nextRid := 0
+	do := func(o op) string {
+		var res string
+		if o.kind == "a" {
+			time.Sleep(time.Duration(o.secs) * time.Second)
+			res = "-"
+		} else {
+			res = w.event(o)
+		}
+		ops = append(ops, o)
+		obs = append(obs, res)
+		return res
+	}
+	finish := func(i int) {
+		f := fl[i]
+		res := do(op{kind: "e", rid: f.rid})
+		fl = append(fl[:i], fl[i+1:]...)
+		p := strings.Split(res, ",")
+		if len(p) == 4 && p[0] == "F" {
+			cl := &cls[f.cl]
+			got := ""
+			if c.source == "header" {
+				if p[2] != "hnone" {
+					got = gen.UnHex(p[2][1:])
+				}
+			} else if p[1] == "cexp" {
+				cl.id = ""
+			} else if p[1] != "cnone" && p[1] != "cbad" {
+				got = gen.UnHex(p[1][1:])
+			}
+			if got != "" {
+				cl.id = got
+				seen = append(seen, got)
+			}
+		}
+	}
+	n := 10 + r.Intn(30)
+	for i := 0; i < n; i++ {
+		switch {
+		case r.Chance(1, 40):
+			// an event that does not fit: must change nothing
+			switch r.Intn(3) {
+			case 0:
+				do(op{kind: "s", rid: 90 + r.Intn(5)})
+			case 1:
+				do(op{kind: "e", rid: 90 + r.Intn(5)})
+			default:
+				if len(fl) > 0 {
+					f := fl[r.Intn(len(fl))]
+					if f.todo > 0 {
+						do(op{kind: "e", rid: f.rid})
+					} else {
+						do(op{kind: "s", rid: f.rid})
+					}
+				}
+			}
+		case r.Chance(1, 10):
+			do(op{kind: "a", secs: gen.Pick(r, []int{1, 1, 2, c.idle - 1, c.idle, c.idle + 1})})
+		case len(fl) == 0 || (len(fl) < 3 && r.Chance(1, 3)):
+			ci := r.Intn(ncl)
+			o := op{kind: "b", rid: nextRid, api: "m"}
+			nextRid++
+			if r.Chance(2, 5) {
+				o.api = "s"
+			}
+			pickPresented(r, c, &o, cls, &cls[ci], seen, w.nid)
+			o.script = genScript(r, o.api, c, seen, cls[ci].id, false)
+			if res := do(o); strings.HasPrefix(res, "S,") {
+				fl = append(fl, genFlight{rid: o.rid, cl: ci, todo: len(o.script)})
+			}
+		default:
+			j := r.Intn(len(fl))
+			if fl[j].todo > 0 {
+				if res := do(op{kind: "s", rid: fl[j].rid}); strings.HasPrefix(res, "T,") {
+					fl[j].todo--
+				} else {
+					fl = append(fl[:j], fl[j+1:]...)
+				}
+			} else {
+				finish(j)
+			}
+		}
+	}
+	for len(fl) > 0 {
+		if fl[0].todo > 0 {
+			if res := do(op{kind: "s", rid: fl[0].rid}); strings.HasPrefix(res, "T,") {
+				fl[0].todo--
+			} else {
+				fl = fl[1:]
+			}
+		} else {
+			finish(0)
+		}
+	}
+	w.drain()
 	w.close()
 	return c, ops, strings.Join(obs, ";")
 }
